@@ -608,3 +608,39 @@ func watchedBytes(in *inputs) int {
 	}
 	return n
 }
+
+// aliasFloors: coverage floors of the immutability and concurrent legs
+func aliasFloors(fl func(k string, quick, thorough int64)) {
+	fl("alias.cases.agree", 450, 23000)
+	for _, o := range aliasOrigins {
+		fl("alias.cases.agree:"+o, 70, 3800)
+	}
+	fl("alias.input-checks", 15000, 750000)
+	fl("alias.ops.agree", 10000, 500000)
+	for _, op := range []string{"PrivateKey.Serialize", "PrivateKey.String", "PrivateKey.Fingerprint", "PrivateKey.Identifier", "PrivateKey.PublicKey",
+		"PrivateKey.NewPrivateChildKey(normal)", "PrivateKey.NewPrivateChildKey(hardened)", "PrivateKey.NewPublicChildKey", "PrivateKey.DeriveSubpath", "PrivateKey.Clone",
+		"PublicKey.Serialize", "PublicKey.String", "PublicKey.Fingerprint", "PublicKey.Identifier", "PublicKey.NewPublicChildKey",
+		"PublicKey.NewPublicChildKey(second index)", "PublicKey.NewPublicChildKey(hardened)", "PublicKey.Clone"} {
+		fl("alias.ops.agree:"+op, 450, 23000)
+	}
+	fl("alias.ops.repeated.agree", 2500, 130000)
+	fl("alias.redeserialize.agree", 7000, 350000)
+	fl("alias.seed-entry-points.agree", 450, 23000)
+	fl("alias.mnemonic.agree", 450, 23000)
+	fl("alias.bip44.agree", 150, 7500)
+	fl("conc.groups.agree", 230, 7900)
+	for _, o := range concOrigins {
+		fl("conc.groups.agree:"+o, 35, 1250)
+	}
+	fl("conc.goroutines", 4500, 160000)
+	for _, op := range []string{"priv.child", "priv.pubchild", "pub.child", "ser", "ident", "mnemonic", "entropy", "seed", "master"} {
+		fl("conc.calls.in-process:"+op, 1000, 40000)
+	}
+	r.Floor("race.children", 4)
+	fl("race.groups", 44, 1150)
+	fl("race.calls:pub.child", 1300, 34000)
+	fl("race.calls:priv.child", 1000, 27000)
+	fl("race.calls:mnemonic", 800, 20000)
+	fl("race.calls:master", 500, 13000)
+	fl("race.calls:seed", 80, 2000)
+}
